@@ -344,9 +344,12 @@ Qed.
 Lemma item_cty_not_container t : is_container_c (item_cty t) = false.
 Proof. destruct t; reflexivity. Qed.
 
-Lemma float_text_ok s : double_sign_run_ok || bytes_eqb s (sign_norm s) = true -> float_text s = sign_norm s.
+Lemma float_text_ok s : float_exp_plain s && float_sign_plain s = true -> float_text s = sign_norm (exp_norm s).
 Proof.
-  unfold float_text. destruct double_sign_run_ok; [reflexivity|]. cbn [orb]. intros H. apply bytes_eqb_eq in H. exact H.
+  unfold float_text, float_exp_plain, float_sign_plain. intros H. apply andb_prop in H. destruct H as [He Hs].
+  assert (E1 : (if double_exponent_ok then exp_norm s else s) = exp_norm s).
+  { destruct double_exponent_ok; [reflexivity|]. cbn [orb] in He. apply bytes_eqb_eq in He. exact He. }
+  rewrite E1. destruct double_sign_run_ok; [reflexivity|]. cbn [orb] in Hs. apply bytes_eqb_eq in Hs. exact Hs.
 Qed.
 
 Section Main.
@@ -378,7 +381,7 @@ Section Main.
     intros Hn Hp.
     assert (Ha : is_arc_c (peel S (pfuel S) (item_cty t)) = false).
     { destruct l; try discriminate; cbn [pclass_into] in Hp;
-        repeat match type of Hp with context [if ?c then None else Some PCFloatSigns] => destruct c end; try discriminate;
+        repeat match type of Hp with context [if ?c then None else Some (if _ then PCFloatSigns else PCFloatExp)] => destruct c end; try discriminate;
         destruct (peel S (pfuel S) (item_cty t)); try discriminate; reflexivity. }
     split; [apply peel_item|]. split; [|exact Ha]. apply sres_erase. intros Hk.
     unfold pfuel in *. set (p := peel S _ (item_cty t)) in *. clearbody p.
@@ -425,11 +428,11 @@ Section Main.
     intros en t ty v [->|[-> Hs]] Hv Hp.
     - destruct (pre en (LFloat s) t eq_refl Hp) as (Ep & Es & Ea).
       cbn [lower lit_value pclass_into] in *. rewrite Ea, Bool.andb_false_r in *. rewrite Ep in *. rewrite Es in Hv. clear Ep Es Ea.
-      destruct (double_sign_run_ok || bytes_eqb s (sign_norm s)) eqn:Ef; [|discriminate].
+      destruct (float_exp_plain s && float_sign_plain s) eqn:Ef; [|discriminate].
       rewrite (float_text_ok _ Ef).
       split_en en (item_cty t);
       (destruct (rres S t); split_item; simp_item Hv Hp; try discriminate;
-        destruct (parse_f64 (sign_norm s)); try discriminate; injection Hv as <-; eexists; reflexivity).
+        destruct (parse_f64 (sign_norm (exp_norm s))); try discriminate; injection Hv as <-; eexists; reflexivity).
     - destruct t; try discriminate; cbn in Hv; discriminate.
   Qed.
 
